@@ -112,6 +112,43 @@ Proof.
 Qed.
 
 (** * ExactlyK *)
+(** /repo 4d027cb: an empty variable list contributes And([1, -1]) (k <> 0) or nothing (k = 0) instead of an EQ
+    request; when every list is non-empty the contribution is one EQ request per list and no clause *)
+Lemma exactlyk_clauses_nonempty (k : nat) (vls : list (list nat)) :
+  Forall (fun vl => vl <> []) vls ->
+  flat_map (fun vl : list nat => match vl with
+                                 | [] => if k =? 0 then [] else [[1%Z]; [(-1)%Z]]
+                                 | _ :: _ => []
+                                 end) vls = ([] : list (list Z)).
+Proof.
+  intros H. induction H as [|vl vls Hvl _ IH]; [reflexivity|].
+  cbn [flat_map]. rewrite IH. destruct vl; [contradiction|reflexivity].
+Qed.
+
+Lemma exactlyk_requests_nonempty (k : nat) (vls : list (list nat)) :
+  Forall (fun vl => vl <> []) vls ->
+  flat_map (fun vl : list nat => match vl with
+                                 | [] => []
+                                 | _ :: _ => [(Card.EQ, zn k, zs vl)]
+                                 end) vls = map (fun vl => (Card.EQ, zn k, zs vl)) vls.
+Proof.
+  intros H. induction H as [|vl vls Hvl _ IH]; [reflexivity|].
+  cbn [flat_map map]. rewrite IH. destruct vl; [contradiction|reflexivity].
+Qed.
+
+(** no request of the contribution has an empty variable list, whatever the lists are *)
+Lemma exactlyk_requests_no_empty (k : nat) (vls : list (list nat)) :
+  Forall (fun q : req => snd q <> [])
+         (flat_map (fun vl : list nat => match vl with
+                                         | [] => []
+                                         | _ :: _ => [(Card.EQ, zn k, zs vl)]
+                                         end) vls).
+Proof.
+  induction vls as [|vl vls IH]; [constructor|].
+  cbn [flat_map]. destruct vl as [|v vl]; [exact IH|].
+  cbn [app]. constructor; [cbn; discriminate|exact IH].
+Qed.
+
 Lemma step_exactlyk k f l wb :
   constraint_f1 fb (FExactlyK k f l wb) = true ->
   forall fresh ct, (GZ < fresh)%Z -> apply_constraint fb (FExactlyK k f l wb) fresh = COk ct ->
@@ -121,7 +158,13 @@ Proof.
   destruct Hc as [[[[Hf Hl] Hg] _] Hne]. apply Nat.ltb_lt in Hl. destruct (geom_ok_some wb Hg) as [rs Ers].
   rewrite (ranges_of wb rs Ers) in Hne. rewrite forallb_forall in Hne.
   cbn [apply_constraint] in E. unfold apply_exactlyk in E.
-  rewrite (f1_var_lists fb HF1 f l wb rs HT Hf Hl Ers) in E. cbn [cbind] in E. inversion E. subst ct. clear E.
+  rewrite (f1_var_lists fb HF1 f l wb rs HT Hf Hl Ers) in E. cbn [cbind] in E.
+  assert (Hvne : Forall (fun vl : list nat => vl <> [])
+                        (map (fun r => map (fun t => gvar fb t f l) (trials_of fb f (fst r) (snd r))) rs)).
+  { rewrite Forall_map. apply Forall_forall. intros r Hr. specialize (Hne r Hr).
+    destruct (trials_of fb f (fst r) (snd r)); [discriminate Hne|discriminate]. }
+  rewrite (exactlyk_clauses_nonempty k _ Hvne), (exactlyk_requests_nonempty k _ Hvne) in E. clear Hvne.
+  inversion E. subst ct. clear E.
   cbn [ct_fresh ct_clauses ct_requests]. exists (fun s => s).
   pose proof (f1_ranges_bound fb wb rs Ers) as Hb.
   assert (HGZ : (0 <= GZ)%Z) by (unfold GZ, zn; lia).
